@@ -81,7 +81,9 @@ JoinChars(sep, lines) ==
     ELSE Moved(Head(lines)) \o (IF Len(lines) > 1 THEN Moved(sep) ELSE <<>>) \o JoinChars(sep, Tail(lines))
 Join(sep, lines) == [chars |-> JoinChars(sep, lines), base |-> sep.base]
 
-Piece(t, a, b) == [chars |-> SubSeq(t.chars, a + 1, b), base |-> t.base]    \* 0-based [a, b)
+\* Python slice semantics: out-of-range bounds are clamped
+Sub(s, a, b) == IF a > b \/ a > Len(s) THEN <<>> ELSE SubSeq(s, Max(a, 1), Min(b, Len(s)))
+Piece(t, a, b) == [chars |-> Sub(t.chars, a + 1, b), base |-> t.base]    \* 0-based [a, b)
 
 \* divide(offsets): sorted offsets within 0..len
 Divide(t, offs) ==
